@@ -58,7 +58,7 @@ Theorem C04_decision_sees : forall eval, extensional eval -> forall fixed G orde
   lookup n (zip (inputs_into G ri inp []) (overwrite kd inp)) =
   match (match lookup n (rev (dec_binds G step rd inp)) with Some v => Some v | None => lookup n (knowledge_ctx G step rk inp) end) with
   | Some v => Some (match lookup n inp with Some v' => v' | None => v end)
-  | None => if mem n (input_names G ri) then Some (getv n inp) else None
+  | None => if mem n (input_names G ri) then Some (input_value n inp) else None
   end.
 Proof. intros eval _. exact (decision_sees eval). Qed.
 (* the evaluator used by the correspondence check meets the assumption, so the theorems apply to what is compared with the code *)
